@@ -4,7 +4,8 @@ correspondence: all nine generators run with their random draws recorded (engine
 in-process patch of torch.randn_like, rand_like, Poisson/Exponential/Uniform/MultivariateNormal
 samplers) vs the Lean model (Model/Stoch.lean, Float carrier) fed with the SAME draws.
 predicate (real code): exact SDE step for Brownian / geometric Brownian, jump models at zero
-intensity == geometric Brownian on the same normals, and — search support, labelled — large-sample
+intensity == geometric Brownian on the same normals (also when the caller keeps ONE tensor of normals /
+one initial-state tensor and hands it to several simulations in a row), and — search support, labelled — large-sample
 moment estimates with explicit 5-sigma error bars over a parameter sweep.
 """
 import math
@@ -29,7 +30,7 @@ def var_se(x):
 def sweep_params(g, name):
     """moment-search parameter sets: moderate total log-variance so that 5-sigma bars from empirical standard errors are reliable"""
     dt = g.choice([1 / 250, 1 / 50])
-    p = {"dt": dt, "n": g.choice([11, 26]), "via": g.choice(["generator", "instrument"]), "dtype": g.choice(["float64", "float64", "float32"])}
+    p = {"dt": dt, "n": g.choice([11, 26]), "via": g.choice(["generator", "generator", "instrument", "instrument", "instrument-again", "instrument-copied"]), "dtype": g.choice(["float64", "float64", "float32"])}
     if name == "brownian":
         p |= {"init": g.choice([0.0, 1.0, -1.0]), "sigma": g.choice([0.2, 1.0]), "mu": g.choice([0.0, 0.3, -0.5])}
     elif name == "geometric_brownian":
@@ -110,13 +111,21 @@ class _ViaInstrument:
     """generate_* look-alikes that go through the primary instruments (constructed with the same parameters, simulated over the
     horizon (n_steps-1) dt): the moment statements must hold for the instruments too"""
 
-    def __init__(self, torch):
+    def __init__(self, torch, used_before=None):
         import pfhedge.instruments as I
         from collections import namedtuple
         self.I, self.torch = I, torch
         self.SV = namedtuple("SV", ["spot", "variance"])
+        self.used_before = used_before
 
     def _sim(self, inst, n_paths, n_steps, init_state):
+        if self.used_before:
+            # the instrument has been simulated before (a few paths over another horizon from its default state); "copied": and is
+            # then copied with copy.deepcopy -- the moment statements hold for every simulation of an instrument, not only the first
+            inst.simulate(n_paths=3, time_horizon=2 * inst.dt)
+            if self.used_before == "copied":
+                import copy
+                inst = copy.deepcopy(inst)
         inst.simulate(n_paths=n_paths, time_horizon=(n_steps - 1) * inst.dt, init_state=init_state)
         if inst.spot.size(1) != n_steps:
             raise GridMismatch(list(inst.spot.shape))
@@ -156,8 +165,8 @@ def moment_suite(ctx, torch, S, name, p, NP, origin):
     """search support (not proof): large-sample estimates of the moment statements of C10 on the REAL generator at parameter set `p`,
     each with an explicit 5-standard-error bar; a deviation is a failing input of the property"""
     dt64 = getattr(torch, p.get("dtype", "float64"))
-    if p.get("via") == "instrument" and name != "brownian":
-        S = _ViaInstrument(torch)
+    if str(p.get("via")).startswith("instrument") and name != "brownian":
+        S = _ViaInstrument(torch, used_before={"instrument-again": "again", "instrument-copied": "copied"}.get(p["via"]))
     dt, n = p["dt"], p["n"]
     T = (n - 1) * dt
     case = {k: v for k, v in p.items()} | {"generator": name, "n_paths": NP, "origin": origin}
@@ -258,6 +267,153 @@ def moment_suite(ctx, torch, S, name, p, NP, origin):
                      key="moment:rough_bergomi:variance-mean", detail={"estimate": m, "std_error": se, "xi": xi})
 
 
+class KeptNormals:
+    """an `engine` of a caller who keeps ONE tensor of normals per requested shape and hands it out for every simulation
+    (common random numbers): the same object, `kept.to(dtype=, device=)` (the same object when nothing changes) or a fresh
+    view of the same storage.  `orig` holds what the caller generated."""
+
+    def __init__(self, torch, hand):
+        self.torch, self.hand, self.pool, self.orig, self.handed = torch, hand, {}, {}, Counter()
+
+    def __call__(self, *size, dtype=None, device=None):
+        size = tuple(size)
+        if size not in self.pool:
+            z = self.torch.randn(*size, dtype=self.torch.float64)
+            self.pool[size], self.orig[size] = z, z.clone()
+        self.handed[size] += 1
+        z = self.pool[size]
+        if self.hand == "same-object":
+            return z
+        return z.to(dtype=dtype, device=device) if self.hand == "to" else z.view(size)
+
+
+def supplied_normals_block(ctx, torch, S, g, n_scen, reqs, metas):
+    """the caller's tensors are used for SEVERAL simulations: one kept tensor of normals per shape handed out by the engine to
+    2-4 simulations in a row (other parameters, Brownian and geometric Brownian on the same draws, jump models / jump instruments
+    at zero intensity, an instrument simulated again), optionally one kept 0-dim tensor as initial state of all of them.  EVERY
+    simulation has to be the exact SDE solution, step by step, for the normals the caller generated (first column = time 0, no
+    increment) from the initial value the caller supplied; the same runs go to the model (op gen) with the ORIGINAL normals as
+    draws.  A volatility callable that hands out one kept tensor at every step / simulation goes to the model as well."""
+    import pfhedge.instruments as I
+    JUMPS = ("merton_jump", "kou_jump")
+    f64 = torch.float64
+    fb = float_bits
+    for sc in range(n_scen):
+        N, n, dt = g.small((1, 2, 3)), g.choice((2, 3, 5, 8, 20)), g.choice([1 / 250, 1 / 12, 0.1, 1 / 365, 1 / 52])
+        hand = g.choice(["same-object", "to", "view"])
+        eng = KeptNormals(torch, hand)
+        kept_init = g.choice([None, None, 1.0, 2.5, 0.3])
+        x0t = None if kept_init is None else torch.tensor(kept_init, dtype=f64)
+        init_form = g.choice(["tuple", "bare"])
+        insts = {}
+        base = {"kind": "supplied-normals", "handed_out_as": hand, "N": N, "n": n, "dt": dt, "kept_init_tensor": kept_init, "init_form": init_form}
+        history = []
+        for u in range(g.randint(2, 4)):
+            name = g.choice(["brownian", "geometric_brownian", "geometric_brownian", "merton_jump", "kou_jump"])
+            via = "instrument" if (name in JUMPS and g.chance(0.5)) else "generator"
+            again = via == "instrument" and name in insts
+            p = dict(insts[name][1]) if again else gen_params(g, name) | {"dt": dt, "n": n, "N": N}
+            if name in JUMPS:
+                p["lam"] = 0.0
+            if again:
+                p["init"] = g.choice([1.0, 2.0, 0.7])
+            if x0t is not None:
+                p["init"] = kept_init
+            x0 = p["init"]
+            init_arg = ((x0t,) if init_form == "tuple" else x0t) if x0t is not None else (x0,)
+            history.append(name + ("/" + via if name in JUMPS else "") + ("/again" if again else ""))
+            case = base | {"generator": name, "params": p, "via": via, "use": u, "uses_so_far": list(history)}
+            ctx.case(case, True, tag="supplied-normals")
+            ctx.stats[f"supplied-normals {history[-1]}"] += 1
+            ctx.stats["supplied-normals later use" if u else "supplied-normals first use"] += 1
+            ctx.traces += 1
+            try:
+                if name == "brownian":
+                    out = S.generate_brownian(N, n, init_state=init_arg, sigma=p["sigma"], mu=p["mu"], dt=dt, dtype=f64, engine=eng)
+                elif name == "geometric_brownian":
+                    out = S.generate_geometric_brownian(N, n, init_state=init_arg, sigma=p["sigma"], mu=p["mu"], dt=dt, dtype=f64, engine=eng)
+                elif via == "generator" and name == "merton_jump":
+                    out = S.generate_merton_jump(N, n, init_state=init_arg, mu=p["mu"], sigma=p["sigma"], jump_per_year=0.0, jump_mean=p["jm"],
+                                                 jump_std=p["js"], dt=dt, dtype=f64, engine=eng)
+                elif via == "generator":
+                    out = S.generate_kou_jump(N, n, init_state=init_arg, sigma=p["sigma"], mu=p["mu"], jump_per_year=0.0, jump_mean_up=p["mean_up"],
+                                              jump_mean_down=p["mean_down"], jump_up_prob=p["p_up"], dt=dt, dtype=f64, engine=eng)
+                else:
+                    if not again:
+                        if name == "merton_jump":
+                            inst = I.MertonJumpStock(mu=p["mu"], sigma=p["sigma"], jump_per_year=0.0, jump_mean=p["jm"], jump_std=p["js"], dt=dt, dtype=f64, engine=eng)
+                        else:
+                            inst = I.KouJumpStock(sigma=p["sigma"], mu=p["mu"], jump_per_year=0.0, jump_mean_up=p["mean_up"], jump_mean_down=p["mean_down"],
+                                                  jump_up_prob=p["p_up"], dt=dt, dtype=f64, engine=eng)
+                        insts[name] = (inst, dict(p))
+                    inst = insts[name][0]
+                    inst.simulate(n_paths=N, time_horizon=(n - 1) * dt, init_state=init_arg if isinstance(init_arg, tuple) else (init_arg,))
+                    out = inst.spot
+            except Exception as e:  # noqa
+                ctx.fail("generator raised when the caller's normals / initial state are handed to it (again)", case, key=f"supplied-normals:{name}:error",
+                         detail=repr(e)[:200])
+                continue
+            if tuple(out.shape) != (N, n):
+                ctx.fail("an instrument simulated over the horizon (n-1) dt does not return n time steps", case, key=f"inst:{name}:grid", detail=list(out.shape))
+                continue
+            z = eng.orig[(N, n)]
+            if name == "brownian":
+                step = lambda x, zk: x + p["mu"] * dt + p["sigma"] * math.sqrt(dt) * zk
+            else:
+                step = lambda x, zk: x * math.exp((p["mu"] - p["sigma"] ** 2 / 2) * dt + p["sigma"] * math.sqrt(dt) * zk)
+            for r in range(N):
+                path, zs = [float(x) for x in out[r].tolist()], [float(x) for x in z[r].tolist()]
+                bad = None
+                if abs(path[0] - x0) > 1e-9 * max(1.0, abs(x0)):
+                    bad = (0, path[0], x0)
+                for i in range(n - 1):
+                    if bad:
+                        break
+                    exp = step(path[i], zs[i + 1])
+                    if not abs(path[i + 1] - exp) <= 1e-9 * max(1.0, abs(exp)):
+                        bad = (i + 1, path[i + 1], exp)
+                if bad:
+                    ctx.fail(f"{name} path is not the exact SDE solution step by step for the normals / initial value the caller supplied"
+                             + (" (the caller's tensors had already been handed to an earlier simulation)" if u else ""),
+                             case | {"path": r, "step": bad[0], "times_these_normals_were_handed_out": eng.handed[(N, n)]},
+                             key=f"supplied-normals:{name}:sde-step", detail={"impl": bad[1], "exact": bad[2]})
+                    break
+            # the same run for the model, with the normals the caller generated as draws
+            L = lambda t, i: enc_flt([float(x) for x in t[i].tolist()])
+            for r in range(N):
+                if name in ("brownian", "geometric_brownian"):
+                    rq = {"op": "gen", "name": name, "p": {k: fb(p[k]) for k in ("init", "sigma", "mu", "dt")}, "draws": {"z": L(z, r)}}
+                elif name == "merton_jump":
+                    rq = {"op": "gen", "name": name, "p": {k: fb(p[k]) for k in ("init", "mu", "sigma", "lam", "jm", "js", "dt")},
+                          "draws": {"nj": enc_flt([0.0] * (n - 1)), "zj": L(eng.orig[(N, n - 1)], r), "z": L(z, r)}}
+                else:
+                    rq = {"op": "gen", "name": name,
+                          "p": {"init": fb(p["init"]), "sigma": fb(p["sigma"]), "mu": fb(p["mu"]), "lam": fb(0.0), "eta_up": fb(1 / p["mean_up"]),
+                                "eta_down": fb(1 / p["mean_down"]), "p_up": fb(p["p_up"]), "dt": fb(dt)},
+                          "draws": {"jumps": enc_flt([[] for _ in range(n - 1)]), "z": L(z, r)}}
+                reqs.append(rq)
+                metas.append((case | {"path": r}, {"spot": [float(x) for x in out[r].tolist()]}))
+        # ---- a volatility callable that hands out ONE kept tensor at every step, for two simulations (correspondence only: the
+        # property's statement about local volatility is distributional)
+        if sc % 3 == 0:
+            a = g.choice([0.2, 0.5, 3.0])
+            p = {"dt": dt, "n": n, "N": N, "init": g.choice([1.0, 2.0]), "a": a, "b": 0.0, "c": 0.0}
+            vol = torch.full((N,), a, dtype=f64)
+            for u in range(2):
+                case = {"kind": "kept-volatility-tensor", "generator": "local_volatility", "params": p, "via": "generator", "use": u}
+                ctx.case(case, True, tag="kept-volatility-tensor")
+                ctx.traces += 1
+                rec = Recorder(torch)
+                with rec:
+                    o = S.generate_local_volatility_process(N, n, lambda t, s: vol, init_state=(p["init"],), dt=dt, dtype=f64)
+                zz = rec.take("randn_like")
+                r32 = float(torch.as_tensor(dt).sqrt())
+                for r in range(N):
+                    reqs.append({"op": "gen", "name": "local_volatility", "p": {k: fb(p[k]) for k in ("init", "a", "b", "c", "dt")} | {"dtw": fb(r32 * r32)},
+                                 "draws": {"z": enc_flt([float(x) for x in zz[r].tolist()])}})
+                    metas.append((case | {"path": r}, {"spot": [float(x) for x in o.spot[r].tolist()], "volatility": [float(x) for x in o.volatility[r].tolist()]}))
+
+
 def check(ctx):
     torch, pfhedge = import_impl()
     import pfhedge.stochastic as S
@@ -334,6 +490,7 @@ def check(ctx):
                     ctx.fail("jump model with zero intensity differs from geometric Brownian motion on the same normals", case | {"step": i},
                              key=f"gen:{name}:zero-intensity", detail={"impl": path[i], "gbm": s})
                     break
+    supplied_normals_block(ctx, torch, S, g, 60 if ctx.tier == "quick" else 400, reqs, metas)
     try:
         outs = ctx.driver(reqs)
     except DriverBroken as e:
@@ -381,6 +538,9 @@ def check(ctx):
     return ctx.finish(
         rule="all nine generators with recorded draws over parameter sweeps (non-default initial states, dt in {1/250,1/12,0.1,1/365}, n in {1..20}, "
              "both CIR QE branches via high/low vol-of-vol, zero and high jump intensities); moment estimates with 5-sigma bars on 2 (quick) / 8 (thorough) "
-             "parameter sets with 2e4 / 2e5 paths; non-trivial = n >= 2; distinct = sha1 of canonical case",
+             "parameter sets with 2e4 / 2e5 paths (generator, instrument, instrument simulated before, instrument simulated before and deep-copied); caller-kept tensors used for "
+             "2-4 simulations in a row (one tensor of normals per shape handed out by the engine as the same object / .to() / a view, optionally one 0-dim initial-state tensor; Brownian, "
+             "geometric Brownian, Merton / Kou generators and instruments at zero intensity, instruments simulated again) checked step by step against the normals the caller generated and "
+             "sent to the model with those normals; a volatility callable handing out one kept tensor (model only); non-trivial = n >= 2; distinct = sha1 of canonical case",
         explanation="pathwise statements and one-step / inductive moment formulas are theorems (Props/C10); the law of torch's RNG is trusted; the "
                     "large-sample estimates are search support only.")
